@@ -382,10 +382,11 @@ class kLeastAbsErrorsCycles(walkmodel.AbstractWalkModelDiGraph):
         - `exception` If model is not solved.
         """
 
+        # A cached solution is only served by a model that is (still) solved
+        self.check_is_solved()
+
         if self._solution is not None:
             return self._remove_empty_walks(self._solution) if remove_empty_walks else self._solution
-
-        self.check_is_solved()
 
         weights_sol_dict = self.solver.get_values(self.path_weights_vars)
 
